@@ -247,6 +247,7 @@ type scenario struct {
 	trail    []string
 	bad      bool
 	sampled  int
+	noAwait  bool
 }
 
 func newScenario(run *vk.Run, srv *vsrv.Server, batch uint64, idx int, kind string) *scenario {
@@ -346,11 +347,14 @@ func (sc *scenario) members(g string) []string {
 func (sc *scenario) connect(user string, slot int) *conn {
 	sc.connCtr++
 	id := fmt.Sprintf("b%ds%dc%d", sc.batch, sc.idx, sc.connCtr)
-	c, err := vclient.Dial(sc.srv, id)
+	c, retries, err := dial(sc.srv, id)
 	if err != nil {
 		sc.run.Inconclusive("dial failed: " + err.Error())
 		sc.bad = true
 		return nil
+	}
+	if retries > 0 {
+		sc.run.Count("dial_retries", int64(retries))
 	}
 	cn := &conn{c: c, id: id, user: user, pw: "pw-" + user, role: roleOf(user), slot: slot, lastModEpoch: -1,
 		lastAlive: vclient.Tick(), errSeen: map[string]int{}}
@@ -376,9 +380,17 @@ func (sc *scenario) lost(cn *conn) {
 	}
 	cn.gone, cn.unexpected, cn.group, cn.cur = true, true, "", nil
 	sc.run.Count("unexpected_closures", 1)
+	switch es := fmt.Sprint(err); {
+	case strings.Contains(es, "1011"):
+		sc.run.Count("unexpected_closures:1011-internal-server-error", 1)
+	case strings.Contains(es, "1006"):
+		sc.run.Count("unexpected_closures:1006-dropped", 1)
+	default:
+		sc.run.Count("unexpected_closures:other", 1)
+	}
 	sc.note(fmt.Sprintf("%s was closed by the server unexpectedly: %v", cn.id, err))
-	if cn.strict {
-		sc.run.Violation("bystander-disconnected", fmt.Sprintf("connection %s (%s), which sent nothing forged, was closed while another connection was being rejected: %v", cn.id, cn.user, err),
+	if cn.strict && err != nil && strings.Contains(err.Error(), "1002") {
+		sc.run.Violation("bystander-disconnected", fmt.Sprintf("connection %s (%s), which sent nothing forged, was closed with a protocol error while other connections were being rejected for forgery: %v", cn.id, cn.user, err),
 			sc.replay(nil))
 	}
 }
@@ -413,11 +425,14 @@ func (sc *scenario) join(cn *conn, g string) bool {
 	ms.joinRet = j.retTick
 	// the history is written right after 'joined' by the same server goroutine: once a
 	// ping has been answered the whole replay has been received
-	if !cn.c.Ping(10 * time.Second) {
+	if !cn.c.Ping(20 * time.Second) {
 		if closed, _ := cn.c.Closed(); closed {
 			sc.lost(cn)
 			return false
 		}
+		sc.run.Inconclusive("no pong after a join within the watchdog")
+		sc.bad = true
+		return false
 	}
 	j.doneTick = vclient.Tick()
 	j.wallDone = time.Now()
@@ -568,10 +583,12 @@ func (sc *scenario) send(cn *conn, o sendOpts) *sendRec {
 	} else if s.emptyUser && cn.user != "" {
 		cn.maybeDoomed, cn.doomBy = true, s
 	}
-	if o.awaitDeliver && !o.noecho && o.dest == "" {
+	if o.awaitDeliver && !o.noecho && o.dest == "" && !sc.noAwait {
 		// a direct causal fence: the sender's own copy is written after the history was updated
 		if _, ok := cn.c.WaitForFrom(from, func(m vclient.Msg) bool { return m.Str("value") == s.Nonce }, 10*time.Second); ok {
 			s.wallSettled = time.Now()
+		} else {
+			sc.noAwait = true // the oracle will say why; do not spend 10 s per message
 		}
 	}
 	if sc.sampled < 3 && sc.idx == 0 {
@@ -1347,6 +1364,15 @@ func (sc *scenario) probe(g string, user string) *conn {
 	return cn
 }
 
+// abort ends a scripted scenario whose cast lost a member for reasons outside the property
+// (the floors notice if that happens systematically).
+func (sc *scenario) abort() {
+	sc.run.Count("scripted_scenarios_cut_short", 1)
+	sc.checkpoint()
+	sc.finish()
+	sc.bad = true
+}
+
 func (sc *scenario) finish() {
 	for _, cn := range sc.conns {
 		if !cn.gone {
@@ -1363,4 +1389,34 @@ func (sc *scenario) finish() {
 	if len(ids) > 0 && !sc.bad {
 		sc.run.Inconclusive(fmt.Sprintf("scenario ended with %d unjudged messages", len(ids)))
 	}
+}
+
+// dial is vclient.Dial, but says why the handshake did not complete and tries again: on
+// a loaded machine galene's 500 ms write deadline can expire before the very first write
+// is attempted, and the server then drops the fresh connection without a word.
+func dial(srv *vsrv.Server, id string) (*vclient.Client, int, error) {
+	var last error
+	for try := 0; try < 4; try++ {
+		c, err := vclient.DialRaw(srv, id)
+		if err != nil {
+			last = err
+			continue
+		}
+		if err := c.Send(vclient.Msg{"type": "handshake", "version": []string{"2"}, "id": id}); err != nil {
+			c.Close()
+			last = err
+			continue
+		}
+		if _, ok := c.WaitFor(func(m vclient.Msg) bool { return m.Str("type") == "handshake" }, 30*time.Second); !ok {
+			closed, cerr := c.Closed()
+			c.Close()
+			last = fmt.Errorf("no handshake from server (closed=%v: %v; %d events)", closed, cerr, c.EventCount())
+			if !closed {
+				break
+			}
+			continue
+		}
+		return c, try, nil
+	}
+	return nil, 0, last
 }
